@@ -5,7 +5,7 @@
 P=$1; S=$2
 D=$(/verif/tools/seed_setup.sh $P $S | tail -1)
 /venv/bin/python - $P $D <<'PY'
-import json, sys, glob
+import json, sys, glob, os
 p, d = sys.argv[1:3]
 prev = []
 for f in sorted(glob.glob('/verif/seeded/%s-*/meta.json' % p)):
@@ -23,7 +23,7 @@ extra = ('\n\nIMPORTANT -- other engineers have ALREADY produced the following c
          'the property statement the earlier change(s) did NOT touch and break that part. Favour faults that are easy to overlook in '
          'review: a width / range / signedness issue, a reset or initial value, a priority between two simultaneous events, a stale '
          'value surviving an abort, a configuration-dependent arm (non-default constructor arguments), an inter-module connection.\n'
-         + '\n'.join(prev) + '\n')
+         + '\n'.join(prev) + '\n' + (('\n' + os.environ['HINT'] + '\n') if os.environ.get('HINT') else ''))
 open(d + '/SEED_TASK.md', 'w').write(t + extra)
 PY
 echo $D
